@@ -321,6 +321,9 @@ class Parser(object):
         # type: (str) -> ProgramNode
         """ Parses the source text into a program structure """
 
+        self.lexer.lineno = 1
+        self.eems_v2 = False
+
         try:
             return self.parser.parse(source, lexer=self.lexer, tracking=True)
         except MixedListError as exc:
